@@ -8,6 +8,7 @@ Lemma radmsg2buf_id md5 m secret b a : radmsg2buf md5 m secret = Ok (Some (b, a)
 Proof.
   intro R. unfold radmsg2buf in R. cbv zeta in R.
   destruct (Consts.RADMSG2BUF_MAX <? _); [discriminate|].
+  destruct (existsb _ _); [discriminate|].
   set (buf0 := radius_header _ _ _ _ ++ _) in R.
   assert (B0 : nth 1 buf0 0 = m_id m /\ (2 <= length buf0)%nat).
   { subst buf0. unfold radius_header. cbn [app nth length]. split; [reflexivity | lia]. }
